@@ -102,9 +102,17 @@ Example C12_convT_example :
   conv_transpose1d c TCircular true x = [[2]; [31]; [20]; [310]; [200]; [103]].
 Proof. vm_compute. repeat split; reflexivity. Qed.
 
+(* the normalised outputs (LayerNorm / RMSNorm / GroupNorm / InstanceNorm) without square roots: what the per-run check
+   demands of every unmasked element, at tolerance 0, is that y - bias is the root of
+   (y - bias)^2 (var + eps) = scale^2 (x - mean)^2 that has the sign of scale (x - mean) *)
+Theorem C12_norm_output_characterised : forall eps x mean var scale bias y, norm_ok 0 eps x mean var scale bias y = true ->
+  ((y - bias) * (y - bias) * (var + eps) == scale * scale * ((x - mean) * (x - mean)) /\ 0 <= (y - bias) * scale * (x - mean))%Q.
+Proof. exact norm_ok_exact. Qed.
+Print Assumptions C12_norm_output_characterised.
+
 (* NOT proved (decided per run against the independent numpy reference and, for Dense / Conv1D / Embed / pooling /
    BatchNorm statistics, against this model): DenseGeneral / Einsum axis arithmetic, 2-D ConvTranspose, ConvLocal,
-   the normalised outputs (square roots), GroupNorm / InstanceNorm / RMSNorm, Dropout, Linen = NNX. *)
+   Dropout, Linen = NNX; the reduction groups of the normalisation layers are computed by the harness from the axes. *)
 Example C12_example :
   let c := mkConv [[[1]; [0]]; [[0]; [2]]; [[1]; [1]]] (Some [1]) 2 1 1 2 1 in
   let x := [[1; 2]; [3; 4]; [5; 6]; [7; 8]; [9; 10]] in
